@@ -1,7 +1,7 @@
 #!/usr/bin/env python3
 """Run registered checks against the seeded changes, in a sandbox copy (never in /repo).
 
-  tools/matrix.py [--only C03-m1,C04-m2] [--props own|C01,C05] [--tier quick] [--fresh]
+  tools/matrix.py [--only C03-m1,C04-m2] [--props own|all|C01,C05] [--tier quick] [--fresh] [--dir seeded|benign]
 
 Creates /tmp/mx/repo (git worktree of /repo HEAD) and /tmp/mx/verif (copy of /verif whose harness
 points at /tmp/mx/repo), applies each seeded/<id>/patch.diff there, runs run_check.py for the
@@ -11,7 +11,7 @@ seeded/MATRIX.json, reverts.  Remove the sandbox afterwards with --cleanup.
 import argparse, json, os, subprocess, sys, time, shutil, re
 
 VERIF = os.path.dirname(os.path.dirname(os.path.abspath(__file__)))
-MX = "/tmp/mx"
+MX = os.environ.get("MX_DIR", "/tmp/mx")
 
 def sh(cmd, **kw):
     return subprocess.run(cmd, shell=True, text=True, stdout=subprocess.PIPE, stderr=subprocess.STDOUT, **kw)
@@ -39,14 +39,16 @@ def main():
     ap.add_argument("--tier", default="quick")
     ap.add_argument("--fresh", action="store_true")
     ap.add_argument("--cleanup", action="store_true")
-    ap.add_argument("--out", default=os.path.join(VERIF, "seeded", "MATRIX.json"))
+    ap.add_argument("--dir", default="seeded", help="seeded (property-breaking) or benign (property-preserving) changes")
+    ap.add_argument("--out")
     a = ap.parse_args()
+    a.out = a.out or os.path.join(VERIF, a.dir, "MATRIX.json")
     if a.cleanup:
         sh(f"git -C /repo worktree remove --force {MX}/repo")
         shutil.rmtree(MX, ignore_errors=True)
         return
     setup(a.fresh)
-    ids = sorted(d for d in os.listdir(os.path.join(VERIF, "seeded")) if os.path.isdir(os.path.join(VERIF, "seeded", d)))
+    ids = sorted(d for d in os.listdir(os.path.join(VERIF, a.dir)) if os.path.isdir(os.path.join(VERIF, a.dir, d)))
     if a.only:
         ids = [i for i in ids if i in a.only.split(",")]
     try:
@@ -54,11 +56,14 @@ def main():
     except Exception:
         M = {}
     for mid in ids:
-        d = os.path.join(VERIF, "seeded", mid)
+        d = os.path.join(VERIF, a.dir, mid)
         meta = json.load(open(os.path.join(d, "meta.json")))
         own = meta.get("property") or mid.split("-")[0]
         own = re.findall(r"C\d\d", own)[0] if re.findall(r"C\d\d", own) else mid.split("-")[0]
-        props = [own] if a.props == "own" else a.props.split(",")
+        if a.props == "all" or (a.props == "own" and a.dir == "benign"):
+            props = ["C%02d" % i for i in range(1, 18)]
+        else:
+            props = [own] if a.props == "own" else a.props.split(",")
         r = sh(f"git -C {MX}/repo checkout -q -- . && git -C {MX}/repo apply {d}/patch.diff")
         if r.returncode != 0:
             print(mid, "PATCH DOES NOT APPLY", r.stdout[:300])
